@@ -105,6 +105,12 @@ structure RS where
   startState : Nat := 1
   didReuse : Bool := false
   pendingShift : Bool := false
+  stateKnown : Bool := false  -- no reduce / breakdown since the last `process` line
+  relexed : Bool := false     -- the reused look-ahead was dropped and a token lexed instead
+  bdChecked : Nat := 0        -- decisions of breakdown_lookahead compared
+  maxPos : Nat := 0           -- furthest position any stack version has been seen at
+  indexSkipped : Nat := 0     -- events explained only by `included_range_difference_index` having
+                              -- skipped a difference that still lies ahead of the current version
   diffs : Array (Nat × Nat) := #[]
   gate : Nat := 0
   matched : Nat := 0
@@ -141,19 +147,22 @@ def RS.gateEvent (s : RS) (L : Lang) (symName : Nat → String) (ev : Verdict) (
       let ld := lineDiffOf s.colFix s.diffs.toList t off s.col
       let s := { s with gate := s.gate + 1
                         coldepSeen := s.coldepSeen || (t.data.dependsOnColumn && !s.diffs.isEmpty) }
+      -- `included_range_difference_index` is advanced with the position of whichever stack version
+      -- was processed last; after a version that ran ahead is dropped, differences ending at or
+      -- before `maxPos` may already have been skipped although they lie ahead of this version.
+      let live := s.diffs.toList.filter (fun r => r.2 > s.maxPos)
+      let fl := fun (x : Verdict) => x == Verdict.firstLeaf || x == Verdict.reuse
+      let (stv, known) := match s.state with
+        | some st => (st, true)
+        | none => (0, false)   -- parse state re-read from the stack after a breakdown: first-leaf test undetermined
+      let v := reuseGate L s.diffs.toList t off s.pos stv extEq ld
+      let v' := reuseGate L live t off s.pos stv extEq ld
       let s :=
-        match s.state with
-        | some st =>
-          let v := reuseGate L s.diffs.toList t off s.pos st extEq ld
-          if v = ev then { s with matched := s.matched + 1 }
-          else s.bad s!"parser logged {ev.name} for `{name}` at offset {off} (position {s.pos}, state {st}); reuseGate says {v.name}"
-        | none =>
-          -- parse state was re-read from the stack after a breakdown: the first-leaf test is undetermined
-          let v := reuseGate L s.diffs.toList t off s.pos 0 extEq ld
-          let fl := fun (x : Verdict) => x == Verdict.firstLeaf || x == Verdict.reuse
-          if v = ev then { s with matched := s.matched + 1 }
-          else if fl v && fl ev then { s with undet := s.undet + 1 }
-          else s.bad s!"parser logged {ev.name} for `{name}` at offset {off} (position {s.pos}, state unknown); reuseGate says {v.name}"
+        if v = ev then { s with matched := s.matched + 1 }
+        else if !known && fl v && fl ev then { s with undet := s.undet + 1 }
+        else if v' = ev then { s with matched := s.matched + 1, indexSkipped := s.indexSkipped + 1 }
+        else if !known && fl v' && fl ev then { s with undet := s.undet + 1, indexSkipped := s.indexSkipped + 1 }
+        else s.bad s!"parser logged {ev.name} for `{name}` at offset {off} (position {s.pos}, state {if known then toString stv else "unknown"}); reuseGate says {v.name}"
       let (it', _, _) := stepIter s.it t s.pos ev
       let s := { s with it := it' }
       match ev with
@@ -169,7 +178,13 @@ def RS.stateMismatch (s : RS) (symName : Nat → String) (name : String) : RS :=
   | none => s.bad "state_mismatch but the model iterator is exhausted"
   | some t =>
     if symName t.data.symbol ≠ name then s.bad s!"state_mismatch for `{name}` but the model iterator is at `{symName t.data.symbol}`"
-    else match s.it.descend with
+    else
+      let s := match s.state, s.stateKnown && !s.relexed with
+        | some st, true =>
+          if needsBreakdown t st then { s with bdChecked := s.bdChecked + 1 }
+          else s.bad s!"parser logged state_mismatch for `{name}` in state {st} but needsBreakdown says no (node state {t.data.parseState})"
+        | _, _ => s
+      match s.it.descend with
       | some it' => { s with it := it' }
       | none => s.bad "state_mismatch on a leaf"
 
@@ -180,12 +195,21 @@ def RS.shift (s : RS) : RS :=
   if s.didReuse then { s with pendingShift := true } else s
 
 def RS.flushShift (s : RS) : RS :=
-  if s.pendingShift then { s with it := s.it.advance, didReuse := false, pendingShift := false } else s
+  if s.pendingShift then
+    -- the node finally shifted is one `ts_parser__breakdown_lookahead` stops at
+    let s := match s.it.tree?, s.state, s.stateKnown && !s.relexed with
+      | some t, some st, true =>
+        if needsBreakdown t st then s.bad s!"parser shifted a reused node built in state {t.data.parseState} in state {st} without breaking it down"
+        else { s with bdChecked := s.bdChecked + 1 }
+      | _, _, _ => s
+    { s with it := s.it.advance, didReuse := false, pendingShift := false }
+  else s
 
 /-- A new `process …` line: close the previous `ts_parser__advance` call (a reused look-ahead
 consumed by a Recover action in the error state also advances the iterator), then start the next. -/
 def RS.process (s : RS) (state pos col : Nat) : RS :=
   let s := if s.didReuse && s.startState == 0 then { s with it := s.it.advance } else s
-  { s with didReuse := false, state := some state, startState := state, pos := pos, col := col }
+  { s with didReuse := false, state := some state, startState := state, pos := pos, col := col,
+           stateKnown := true, relexed := false, maxPos := max s.maxPos pos }
 
 end TsVerif.C01
